@@ -33,6 +33,10 @@ func runC12(c *Ctx) {
 	ruleNoGoroutinePerPartial(c, "R12.7")
 	ruleAppendLockOnlyAroundPut(c, "R12.8")
 	ruleStreamEndDeregisters(c, "R12.2")
+	ruleInProcessStreamNeverWaits(c, "R12.9")
+	// a stream lives as long as its remote reader wants: nothing the beacon process needs is held across it
+	ruleBlockHeld(c, "R12.10", map[string]bool{"internal/core.BeaconProcess.state": true})
+	c.Floor("R12.10", "blocking operations under the beacon-process lock examined", c.Counts["R12.10"], 1)
 }
 
 func ruleStreamCallbackDeregisters(c *Ctx, rule string) {
@@ -694,4 +698,36 @@ func ruleAppendLockOnlyAroundPut(c *Ctx, rule string) {
 		})
 	}
 	c.Floor(rule, "acquisitions of the append-layer mutex", n, 1)
+}
+
+// R12.9: the in-process stream (the one the node's own HTTP server and embedding clients read) never waits for its
+// reader. Its Send runs on a callback worker; a worker that waits fills its queue, and a full queue blocks the store's
+// Put under the callback-store lock. Every select that offers the beacon to the reader has a default branch.
+func ruleInProcessStreamNeverWaits(c *Ctx, rule string) {
+	c.ranRules[rule] = true
+	fn := c.P.Fn("internal/core.(*streamProxy).Send")
+	if !c.Anchor(rule, "internal/core.(*streamProxy).Send", fn != nil) {
+		return
+	}
+	n := 0
+	forEachInstr(fn, func(_ *ssa.BasicBlock, _ int, in ssa.Instruction) {
+		switch x := in.(type) {
+		case *ssa.Send:
+			n++
+			c.Ok(rule, "streamProxy.Send offers the beacon without waiting", shortPos(c.P, in), false, "a plain send waits for the reader")
+		case *ssa.Select:
+			sends := false
+			for _, st := range x.States {
+				if st.Dir == types.SendOnly {
+					sends = true
+				}
+			}
+			if sends {
+				n++
+				c.Ok(rule, "streamProxy.Send offers the beacon without waiting", shortPos(c.P, in), !x.Blocking,
+					ifs(x.Blocking, "the select has no default branch: the callback worker waits for the reader", "select with a default branch"))
+			}
+		}
+	})
+	c.Floor(rule, "offers to the reader in streamProxy.Send", n, 1)
 }
